@@ -224,6 +224,68 @@ func c19SignedUpdate(cs *certSet) (*c19Obj, error) {
 	return o, nil
 }
 
+// c19DecodedDescriptor: an authentication descriptor as a reader of a signed update sees it
+// (decoded from bytes, not built by SignEFIVariable).
+func c19DecodedDescriptor(cs *certSet) (*c19Obj, error) {
+	_, m, err := signature.SignEFIVariable(efivar.Db, c12db(2, 4), cs.Key.Priv, cs.Cert)
+	if err != nil {
+		return nil, err
+	}
+	raw := m.Bytes()
+	mk := func() (*signature.EFIVariableAuthentication2, error) {
+		return signature.ReadEFIVariableAuthencation2(bytes.NewReader(raw))
+	}
+	av, err := mk()
+	if err != nil {
+		return nil, err
+	}
+	build := func(av *signature.EFIVariableAuthentication2) *c19Obj {
+		o := &c19Obj{kind: "descriptor-decoded", ops: []string{"Marshal", "Verify", "Header.Write", "UEFIGUID.Write"}}
+		o.call = func(op string) string {
+			switch op {
+			case "Marshal":
+				var b bytes.Buffer
+				av.Marshal(&b)
+				return dig(b.Bytes())
+			case "Verify":
+				ok, err := av.Verify(cs.Cert)
+				return fmt.Sprint(ok, err != nil)
+			case "Header.Write":
+				var b bytes.Buffer
+				h := av.AuthInfo.Header
+				signature.WriteWinCertificate(&b, &h)
+				return dig(b.Bytes())
+			default:
+				var b bytes.Buffer
+				signature.WriteWinCertificateUEFIGUID(&b, &av.AuthInfo)
+				return dig(b.Bytes())
+			}
+		}
+		o.state = func() string {
+			return fmt.Sprintf("%d/%d/%s/%s", av.AuthInfo.Header.Length, len(av.AuthInfo.Header.Certificate), dig(av.AuthInfo.Header.Certificate), dig(av.AuthInfo.CertData))
+		}
+		return o
+	}
+	o := build(av)
+	o.fresh = func() (*c19Obj, error) {
+		a2, err := mk()
+		if err != nil {
+			return nil, err
+		}
+		return build(a2), nil
+	}
+	// answers of objects that were never asked anything else
+	o.expect = map[string]string{}
+	for _, op := range o.ops {
+		f, err := o.fresh()
+		if err != nil {
+			return nil, err
+		}
+		o.expect[op] = f.call(op)
+	}
+	return o, nil
+}
+
 type c19Report struct {
 	Violations   []string         `json:"violations"`
 	Ops          map[string]int64 `json:"ops"`
@@ -301,6 +363,9 @@ func c19Objects(dir string) ([]*c19Obj, error) {
 	long.Append(signature.CERT_SHA256_GUID, *util.StringToGUID("aaaaaaaa-bbbb-cccc-dddd-eeeeeeeeeeee"), bytes.Repeat([]byte{9, 0}, 16))
 	objs = append(objs, c19Database("database-long-list", long))
 	if err := add(c19SignedUpdate(cs)); err != nil {
+		return nil, err
+	}
+	if err := add(c19DecodedDescriptor(cs)); err != nil {
 		return nil, err
 	}
 	return objs, nil
@@ -603,8 +668,8 @@ func checkC19(r *mon.Run) {
 	}
 	c19Cold(r, raceBin)
 	r.Floor("sequential_orders", 120*8)
-	r.Floor("concurrent_rounds", int64(rounds*8))
-	r.Floor("object_kinds_with_overlap", 8)
+	r.Floor("concurrent_rounds", int64(rounds*9))
+	r.Floor("object_kinds_with_overlap", 9)
 }
 
 // raceKey de-duplicates race reports by the pair of outermost library entry points.
